@@ -157,6 +157,9 @@ def run(ctx: Ctx) -> Result:
         reqs.append(({**base, 'kind': None, 'rejected_installs': [f'FORK_{code}', f'fork{code}'], 'compile': srcs_old, 'decompile': [bytes([code, 3]).hex()]}, 'rejected-install'))
         for kind in (FORK_KINDS if ctx.tier == 'thorough' else FORK_KINDS[:4] + [rng.choice(FORK_KINDS[4:])]):
             reqs.append(({**base, 'kind': kind, 'compile': srcs_new, 'decompile': [bytes([code, 3]).hex()]}, kind))
+        # history: the same bytes were listed (as NOPs) before the fork was installed - afterwards they are listed with the fork's name
+        nested_ = bytes([1, 43, 0, 2, code, 3])
+        reqs.append(({**base, 'kind': FORK_KINDS[0], 'decompile_before_install': [bytes([code, 3]).hex(), nested_.hex()], 'compile': srcs_new, 'decompile': [bytes([code, 3]).hex()]}, FORK_KINDS[0]))
         # history: an earlier fork at another byte had claimed the same aliases; after this install name and aliases reach THIS byte
         other = next(c for c in reversed(free) if c != code)
         reqs.append(({**base, 'kind': FORK_KINDS[0], 'earlier_installs': [{'code': other, 'name': f'OP_OLDFORK_{other}', 'aliases': base['aliases']}],
@@ -183,7 +186,10 @@ def run(ctx: Ctx) -> Result:
                       'item': (req[field][k] if field != 'auth' else req['auth'][k])}, str(old[field][k])[:200], str(ans[field][k])[:200])
                 break
     for (req, kind), ans in zip(reqs, answers):
-        if kind is None or kind == 'rejected-install' or 'error' in ans or req['code'] not in base_by_code: continue
+        if 'install_error' in ans:
+            viol({'what': 'a fork could not be installed at a free code', 'code': req['code'], 'earlier_installs': [e['code'] for e in req.get('earlier_installs', [])]}, 'installed', ans['install_error'])
+    for (req, kind), ans in zip(reqs, answers):
+        if kind is None or kind == 'rejected-install' or 'error' in ans or 'install_error' in ans or req['code'] not in base_by_code: continue
         old = base_by_code[req['code']]
         for scripts, v_new, v_old in zip(req['auth'], ans['auth'], old['auth']):
             res.note_case(('fork', req['code'], kind, tuple(scripts)))
